@@ -228,6 +228,10 @@ def signature(p, f, with_control=True):
                     vc = "value"
             sig[("store", tgt, vc) + ((_ctl(f, i),) if with_control else ())] += 1
         elif i.op == "icmp":
+            if i.d["pred"] in ("eq", "ne") and const_int(i.ops[1]) == 0:
+                x_ = f.inst(strip_int_casts(f, i.ops[0]))
+                if x_ is not None and x_.ty == "i1":
+                    continue      # a truth value kept in an integer (a flag local, an inlined predicate) and tested again: no new comparison
             a, b = _cls(f, i.ops[0]), _cls(f, i.ops[1])
             pr = i.d["pred"]
             # a bare comparison is compared without its polarity (which branch is `then' is a matter of style; what runs under which
